@@ -103,6 +103,12 @@ FixGrid ==
   \cup UNION {{FunDef("f", FSig1(l), <<Assign("u", A), Aug("u", "Add", k), Ret(IfE(Cmp("Gt", U, k2), U, A))>>, TFix(l[1], l[2])) : k \in Floats, k2 \in {CF(1, 2), CF(3, 2)}} : l \in Layouts}
   \cup UNION {{FunDef("f", FSig1(l), <<Ret(Bin("Mult", CI(k), A))>>, TFix(l[1], l[2])) : k \in 0..3} \cup
               {FunDef("f", FSig1(l), <<Ret(Bin("Mult", A, CI(k)))>>, TFix(l[1], l[2])) : k \in 0..3} : l \in Layouts}
+  \* fixed point times an integer VARIABLE / a local holding a constant (only literal factors are supported: anything
+  \* else must be rejected, not read as a constant)
+  \cup UNION {{FunDef("f", <<Arg("n", TInt(2)), Arg("a", TFix(l[1], l[2]))>>, <<Ret(Bin("Mult", Name("n"), A))>>, TFix(l[1], l[2])),
+               FunDef("f", <<Arg("n", TInt(2)), Arg("a", TFix(l[1], l[2]))>>, <<Ret(Bin("Mult", A, Name("n")))>>, TFix(l[1], l[2]))}
+              \cup {FunDef("f", FSig1(l), <<Assign("k", CI(k)), Ret(Bin("Mult", Name("k"), A))>>, TFix(l[1], l[2])) : k \in 0..3}
+              \cup {FunDef("f", FSig1(l), <<Assign("k", CI(k)), Ret(Bin("Mult", A, Name("k")))>>, TFix(l[1], l[2])) : k \in 0..3} : l \in Layouts}
 \* characters compared with integers and characters of every width class (ord(c) == 10: the literal is a Qint4)
 CharGrid ==
   {FunDef("f", <<Arg("c", [t |-> "char", w |-> 8])>>, <<Ret(Cmp(op, Call1("ord", Name("c")), CI(k)))>>, TBool) : op \in {"Eq", "NotEq"}, k \in {0, 3, 10, 42, 97, 200}}
@@ -127,6 +133,23 @@ IfTest ==
       g0 \in {Cc, CB(TRUE)}, u \in {Aug("n", "Add", CI(1)), Aug("n", "Add", A)}}
   \cup {FunDef("f", SigB, <<Assign("go", g0), Assign("v", Name("e")), If(G, <<Assign("go", g1), Assign("v", BoolOpN("And", <<V, G>>))>>, <<Assign("v", Un("Not", V))>>), Ret(BoolOpN("Or", <<V, G>>))>>, TBool) :
       g0 \in GoInit, g1 \in GoNext}
+\* tuple-typed LOCAL variables: an alias of a tuple argument / a tuple display, then element access, a second alias,
+\* the whole value, comparison, an element chosen by an if-expression (the bits of a local are named after its TYPE)
+TupTypes == {TTup(<<I2, I2>>), TTup(<<I2, TBool>>), TTup(<<TBool, I2>>), TTup(<<TBool, TBool>>), TTup(<<TTup(<<TBool, TBool>>), I2>>),
+             TTup(<<I2, TBool, I2>>), TTup(<<TBool, TTup(<<I2, TBool>>)>>)}
+T0 == Name("t")
+TupInit(T) == {T0, Tup([k \in 1..Len(T.elts) |-> Sub(T0, CI(k - 1))])}
+TSig(T, sp) == <<IF sp THEN ArgT("t", T) ELSE Arg("t", T), Arg("c", TBool)>>
+TupVar ==
+  UNION {UNION {UNION {
+       {FunDef("f", TSig(T, sp), <<Assign("u", e0), Ret(Sub(U, CI(k - 1)))>>, T.elts[k]) : k \in 1..Len(T.elts)}
+       \cup {FunDef("f", TSig(T, sp), <<Assign("u", e0), Ret(U)>>, T)}
+       \cup {FunDef("f", TSig(T, sp), <<Assign("u", e0), Assign("v", U), Ret(Sub(V, CI(k - 1)))>>, T.elts[k]) : k \in 1..Len(T.elts)}
+       \cup {FunDef("f", TSig(T, sp), <<Assign("u", e0), Ret(Cmp(op, U, T0))>>, TBool) : op \in {"Eq", "NotEq"}}
+       \cup {FunDef("f", TSig(T, sp), <<Assign("u", e0), Ret(IfE(Cc, Sub(U, CI(k - 1)), Sub(T0, CI(Len(T.elts) - k))))>>, T.elts[k]) :
+               k \in {j \in 1..Len(T.elts) : T.elts[j] = T.elts[Len(T.elts) + 1 - j]}}
+       \cup {FunDef("f", TSig(T, sp), <<Assign("u", e0), If(Cc, <<Assign("u", T0)>>, <<>>), Ret(Sub(U, CI(k - 1)))>>, T.elts[k]) : k \in 1..Len(T.elts)}
+     : e0 \in TupInit(T)} : T \in TupTypes} : sp \in BOOLEAN}
 
 Pool == CASE Family = "loopif" -> LoopIf [] Family = "elif" -> Elif [] Family = "nested" -> Nested
           [] Family = "listidx" -> ListIdx [] Family = "swapuse" -> SwapUse [] Family = "ifaug" -> IfAug
@@ -134,6 +157,7 @@ Pool == CASE Family = "loopif" -> LoopIf [] Family = "elif" -> Elif [] Family = 
           [] Family = "opgrid" -> OpGrid
           [] Family = "fixgrid" -> FixGrid
           [] Family = "chargrid" -> CharGrid
+          [] Family = "tupvar" -> TupVar
 Init == p \in Pool
 Next == FALSE /\ p' = p
 Spec == Init /\ [][Next]_p
